@@ -2,7 +2,7 @@
 import Driver.Util
 import Atlas.Hash
 import Atlas.Base.Sha256
-open Lean Atlas.Hash
+open Lean Atlas Atlas.Hash
 
 namespace Driver
 
